@@ -54,7 +54,9 @@ def gen_repo(r, portable=False, with_dist=None, ignored_dirs=True, complete=Fals
                     mkdir(d + '/files/sub', 'files')
                     mkfile(d + '/files/sub/nested.patch')
             if r.random() < 0.2:
-                mkfile(d + '/ChangeLog')
+                # now and then a file larger than the 64 KiB / 1 MiB buffering thresholds of the hashing code and of the scripts
+                big = r.random() < 0.2
+                mkfile(d + '/ChangeLog', (b'%d: changes\n' % r.randint(0, 99)) * r.choice([6000, 7000, 11000]) if big else None)
             want_dist = with_dist if with_dist is not None else (r.random() < 0.3)
             if want_dist:
                 t.add_file(d + '/Manifest', b'DIST %s-1.tar.gz 5 BLAKE2B 00 SHA512 11\n' % pkg.encode())
@@ -69,6 +71,8 @@ def gen_repo(r, portable=False, with_dist=None, ignored_dirs=True, complete=Fals
     if r.random() < 0.6 or complete:
         mkdir('profiles', 'profiles')
         mkfile('profiles/repo_name', b'test\n')
+        if r.random() < 0.08:
+            mkfile('profiles/use.local.desc', b'cat/pkg:flag - description\n' * r.choice([2600, 3000]))
         if complete:
             mkfile('profiles/categories', ''.join(x + '\n' for x in sorted(d for d, ro in roles.items() if ro == 'category')).encode())
         if r.random() < 0.6:
